@@ -176,7 +176,90 @@ def task_session(args):
     return n, out, classes
 
 
+def _lists_in(x, path=()):
+    """every list inside a message (by path), outermost first"""
+    if isinstance(x, dict):
+        for k in sorted(x, key=repr):
+            for r in _lists_in(x[k], path + (k,)):
+                yield r
+    elif isinstance(x, (list, tuple)):
+        if isinstance(x, list):
+            yield path, x
+        for i, v in enumerate(x):
+            for r in _lists_in(v, path + (i,)):
+                yield r
+
+
+def resend_cases(which, tier):
+    """one message per (family / attribute, list inside it): the caller keeps the message it sent, edits one of its lists in
+    place (AS-path prepending, one more community, one more route, one fewer) and sends it again"""
+    seen = set()
+    if which == 'c06':
+        for code in pools.C06_CODES:
+            for asn4 in (False, True):
+                for value, cv in pools.reduced_attr_pool(code, asn4, tier):
+                    yield 'attr:' + upd.ATTR_NAME[code], tuple(cv), {'attr': {code: value}}, asn4
+        yield 'ipv4-unicast', ('where=both',), {'attr': dict(pools.BASE_ATTR), 'nlri': ['10.1.0.0/16', '10.2.0.0/17'], 'withdraw': ['10.3.0.0/16', '10.4.0.0/30']}, True
+        yield 'attr-subset', ('codes=all',), {'attr': dict(pools.REPRESENTATIVE), 'nlri': ['192.0.2.0/24']}, True
+    else:
+        for k, m in family_representatives(tier):
+            yield k[0], ('dir=%d' % k[1],), m, True
+
+
+def _apply_edit(lst, edit):
+    import copy
+    if edit == 'prepend-copy-of-first':
+        lst.insert(0, copy.deepcopy(lst[0]))
+    elif edit == 'append-copy-of-last':
+        lst.append(copy.deepcopy(lst[-1]))
+    elif edit == 'drop-last':
+        lst.pop()
+    else:
+        lst.reverse()
+
+
+def task_resend(args):
+    import copy
+    from yabgp.message.update import Update
+    prop, which, tier = args
+    out = []
+    classes = set()
+    n = 0
+    for fam, cv, msg0, asn4 in resend_cases(which, tier):
+        if not upd.in_range(msg0, asn4)[0]:
+            continue
+        nlists = sum(1 for _ in _lists_in(msg0))
+        for li in range(nlists):
+            for edit in ('prepend-copy-of-first', 'append-copy-of-last', 'drop-last', 'reverse'):
+                msg = copy.deepcopy(msg0)
+                path, lst = list(_lists_in(msg))[li]
+                if not lst or (edit in ('drop-last', 'reverse') and len(lst) < 2) or (edit == 'reverse' and lst == lst[::-1]):
+                    continue
+                # what a caller who builds the edited message from scratch gets (judged by the round-trip cases themselves)
+                fresh = copy.deepcopy(msg0)
+                _apply_edit(list(_lists_in(fresh))[li][1], edit)
+                if not upd.in_range(fresh, asn4)[0]:
+                    continue
+                base = codec.roundtrip(fresh, asn4, upd)
+                try:
+                    Update.construct(msg, asn4)          # first send: the agent sees this very object
+                except Exception:      # noqa
+                    continue
+                _apply_edit(lst, edit)
+                n += 1
+                sym, det = codec.roundtrip(msg, asn4, upd)
+                classes.add((fam, 'resend', edit, sym or det))
+                if sym and repr((sym, det)) != repr(base):
+                    d = {'family': fam, 'class_vector': list(cv) + ['resend=' + edit, 'list=' + '/'.join(map(str, path))], 'msg': msg0, 'asn4': asn4,
+                         'edited_message': msg, 'edit': edit, 'list_index': li}
+                    d.update(det or {})
+                    out.append(('%s|%s|resend after in-place edit (%s of %s)|asn4=%s|%s' % (prop, fam, edit, '/'.join(str(x) for x in path if not isinstance(x, int)), asn4, sym), d))
+    return n, out, classes
+
+
 def _dispatch(t):
+    if t[0] == 'resend':
+        return task_resend(t[1:])
     if t[0] == 'threads':
         from .. import concurrent
         return concurrent.task3(t[1])
@@ -201,6 +284,8 @@ def run_pool(prop, which, tier, seed, rule, assumptions):
     # preemption (thorough: two) over pairs of them (vf/threads.py, vf/concurrent.py)
     from .. import concurrent
     tasks += [('threads', a) for a in concurrent.tasks(prop, tier)]
+    # the caller edits a list of the message it sent in place and sends it again (the agent must not have kept anything of the first)
+    tasks.append(('resend', prop, which, tier))
     res = explore.pmap(_dispatch, tasks, chunk=1)
     explore.close_pool()
     total = 0
@@ -211,6 +296,10 @@ def run_pool(prop, which, tier, seed, rule, assumptions):
         for k, det in out:
             if t[0] == 'threads':
                 col.add(k, {x: det[x] for x in det if x in ('specs', 'start', 'cuts', 'label', 'bound')}, det, task=t)
+                continue
+            if t[0] == 'resend':
+                col.add(k, {'msg': det['msg'], 'asn4': det['asn4'], 'family': det['family'], 'edit': det['edit'], 'list_index': det['list_index'],
+                            'case': report.pack((det['msg'], det['asn4']))}, det, task=t)
                 continue
             col.add(k, {'msg': det['msg'], 'asn4': det['asn4'], 'family': det['family'], 'class_vector': det['class_vector'],
                         'case': report.pack((det['msg'], det['asn4']))}, det, task=t)
@@ -257,7 +346,7 @@ def replay(path, prop=PROP):
             return [fix(v) for v in x]
         return x
     msg = report.unpack(w['case'])[0] if 'case' in w else fix(w['msg'])      # the pickled case keeps tuples as tuples
-    if '|session-path|' in d['key']:
+    if '|session-path|' in d['key'] or '|resend after in-place edit' in d['key']:
         return report.replay_in_task(d, _dispatch)
     r1, r2 = report.twice(codec.roundtrip, msg, w['asn4'], upd)
     if repr(r1) != repr(r2):
